@@ -373,7 +373,7 @@ def replay_split_events(inputs):
         bad.append(f'{len(parts)} parts instead of {P}')
     if not ev.equals(before):
         bad.append('source table was modified')
-    bins = [int(k * (S + 1) / P) for k in range(P + 1)]
+    bins = [int(x) for x in np.linspace(0, S + 1, P + 1, dtype=int)]  # numpy's own edges (k (S+1)/P evaluated in floating point, then truncated)
     seen = 0
     for J, part in enumerate(parts[:P]):
         exp = rows[(rows[:, 5] >= bins[J]) & (rows[:, 5] < bins[J + 1])].copy()
@@ -419,7 +419,7 @@ def replay_split(inputs):
     cat = np.concatenate([p.inner_states for p in parts])
     if (cat != tr.inner_states).any():
         bad.append('inner state arrays do not concatenate to the original')
-    bins = [int(k * (T + 1) / n) for k in range(n + 1)]
+    bins = [int(x) for x in np.linspace(0, T + 1, n + 1, dtype=int)]  # numpy's own edges (floating-point evaluation, then truncation)
     allrows = []
     for k, p in enumerate(parts):
         e = p.events[COLS].to_numpy().copy()
